@@ -356,6 +356,15 @@ func (c *SCIONClient) measureClockOffsetSCION(ctx context.Context, mtrcs *scionC
 	if n != len(buffer.Bytes()) {
 		return time.Time{}, 0, errWrite
 	}
+	// An exchange that fails after its request has been sent ends the chain of
+	// interleaved exchanges: the next request would repeat this one bit for bit
+	// (it consists of the records of the last successful exchange only), and a
+	// late response to this request would pass for the response to that one.
+	defer func() {
+		if err != nil {
+			c.prev.reference = ""
+		}
+	}()
 	cTxTime1, id, err := udp.ReadTXTimestamp(conn)
 	if err != nil || id != 0 {
 		// fall back on the clock reading taken before the request was sent: a
